@@ -154,13 +154,13 @@ var caselessPool = []string{"4", "正確", "42", "💩", "-", "語"}
 var taintStems = []string{"éa", "ñu", "λx", "две", "øre", "שלום", "語", "正確", "ÿß", "жук", "ñandú", "éßλ"}
 
 type listOpt struct {
-	min, max   int
-	twins      float64 // chance a stem also appears title-cased
-	precap     float64 // chance a stem appears only title-cased
-	caseless   float64
-	dups       float64
-	emptyWord  float64
-	taint      bool
+	min, max    int
+	twins       float64 // chance a stem also appears title-cased
+	precap      float64 // chance a stem appears only title-cased
+	caseless    float64
+	dups        float64
+	emptyWord   float64
+	taint       bool
 	forceAllCap bool // every kept word must change under title-casing
 }
 
